@@ -18,6 +18,7 @@ DescVerdict(e) ==
 PmtVerdict(e) ==
   IF \E k \in 1..Len(e.streams) : e.streams[k].lags # LagsEbp(e.streams[k].type) THEN "pmt-lags-by-pid"
   ELSE IF e.absent_lags THEN "pmt-lags-absent-pid"
+  ELSE IF \E k \in 1..Len(e.after_remove) : e.after_remove[k].lags # (~e.after_remove[k].removed /\ LagsEbp(e.after_remove[k].type)) THEN "pmt-lags-after-removing-streams"
   ELSE ""
 Verdict(e) == IF e.panic # "" THEN "panic"
               ELSE IF e.op = "desc" THEN DescVerdict(e)
